@@ -14,7 +14,7 @@ theorem mask_result (rows : CRows) (L : Int) (alphabet : Nat) (refseq : String) 
     ∃ rep0 refs, repChar alphabet mr = some rep0 ∧
       out = rows.map (fun r => (r.1, r.2.mapIdx fun i c =>
         maskCell rows L start len mr rep0 nogap (refseq != "" && noref) refs i c)) := by
-  unfold mask at h
+  unfold mask maskWithRef at h
   split at h
   · cases h
   · split at h
@@ -77,7 +77,7 @@ theorem mask_ok_iff (rows : CRows) (L : Int) (alphabet : Nat) (refseq : String) 
     (mask rows L alphabet refseq start len mr nogap noref).isSome = true ↔
       (0 ≤ start ∧ start ≤ L ∧ (repChar alphabet mr).isSome = true ∧
        ((refseq != "" && noref) = true → (rows.find? fun r => r.1 == refseq).isSome = true)) := by
-  unfold mask
+  unfold mask maskWithRef
   by_cases h1 : start < 0
   · simp [h1]; intro; omega
   · by_cases h2 : start > L
@@ -169,7 +169,7 @@ theorem maskOcc_ok_iff (rows : CRows) (L : Int) (alphabet : Nat) (refseq : Strin
     (maskOccurences rows L alphabet refseq maxOcc mr).isSome = true ↔
       ((repChar alphabet mr).isSome = true ∧
        ((refseq != "") = true → (rows.find? fun r => r.1 == refseq).isSome = true)) := by
-  unfold maskOccurences
+  unfold maskOccurences maskOccWithRef
   cases hr : repChar alphabet mr with
   | none => simp
   | some rep0 =>
